@@ -275,16 +275,16 @@ Proof.
 Qed.
 
 (* the stages of MoveModule._change_occurrences_in_module, one equation each *)
-Lemma change_occurrences_steps w src D m imps0 imps1 imps2 refs2 si imps3 :
+Lemma change_occurrences_steps V w src D m imps0 imps1 imps2 refs2 si imps3 :
   occurs_in_module w src true m (m_imports m) (m_refs m) = true ->
   modname (w_l w) (RDir D) <> [] ->
-  change_import_statements w src D (m_imports m) = Done imps0 ->
+  change_import_statements V w src D (m_folder m) (m_imports m) = Done imps0 ->
   reparse imps0 = imps1 ->
   map (rename_stmt w src D m imps1) imps1 = imps2 ->
   map (rename_ref w src D m imps1) (m_refs m) = refs2 ->
   occurs_in_module w src false m imps1 (m_refs m) = si ->
   reparse (remove_old_imports w src m imps2) = imps3 ->
-  change_occurrences w src D m =
+  change_occurrences V w src D m =
   Done {| m_folder := m_folder m; m_name := m_name m;
           m_imports := if si then add_import imps3 (INormal [(new_name w src D, None)]) else imps3;
           m_refs := refs2 |}.
@@ -305,6 +305,7 @@ Qed.
 
 (* ------------------------------------------------------------------ the moved layout (module file) *)
 Section ModuleMove.
+  Variable V : variant.
   Variable w : world.
   Variable p : path.
   Variable b : N.
@@ -574,27 +575,27 @@ Section ModuleMove.
   Qed.
 
 
-  Lemma cis_single st :
-    change_stmt w src D [st] 0 = Done [st] -> change_import_statements w src D [st] = Done [st].
+  Lemma cis_single F st :
+    change_stmt V w src D F [st] 0 = Done [st] -> change_import_statements V w src D F [st] = Done [st].
   Proof.
     intro H. unfold change_import_statements. cbn [length Nat.mul Nat.add change_loop Nat.leb].
     rewrite H. reflexivity.
   Qed.
 
-  Lemma change_stmt_noname level modn names :
+  Lemma change_stmt_noname F level modn names :
     existsb (fun na : N * option N => N.eqb (fst na) b) names = false ->
-    change_stmt w src D [IFrom level modn names] 0 = Done [IFrom level modn names].
+    change_stmt V w src D F [IFrom level modn names] 0 = Done [IFrom level modn names].
   Proof. intro H. unfold change_stmt. cbn [nth_error src_name src]. rewrite H. reflexivity. Qed.
 
-  Lemma change_stmt_normal names :
-    change_stmt w src D [INormal names] 0 = Done [INormal names].
+  Lemma change_stmt_normal F names :
+    change_stmt V w src D F [INormal names] 0 = Done [INormal names].
   Proof. reflexivity. Qed.
 
   (* ---- style: from p.b import g [as k] *)
   Lemma co_from_mod F name g k refs :
     fallback_ok l F D = true -> N.eqb g b = false -> N.eqb g STAR = false ->
     (forall r, In r refs -> r = [or_name k g]) ->
-    change_occurrences w src D (client_of p b F name (StFromMod g k) refs) =
+    change_occurrences V w src D (client_of p b F name (StFromMod g k) refs) =
     Done {| m_folder := F; m_name := name; m_imports := [IFrom 0 (D ++ [b]) [(g, k)]]; m_refs := refs |}.
   Proof.
     intros Hfb Hgb Hgs Hrefs.
@@ -609,7 +610,7 @@ Section ModuleMove.
         cbn [app lookup_env fold_left]. rewrite N.eqb_refl.
         unfold mod_attr, src. destruct (memN g (globals_of w (RPy p b))); reflexivity. }
       rewrite E, andb_false_r. reflexivity. }
-    rewrite (change_occurrences_steps w src D m
+    rewrite (change_occurrences_steps V w src D m
                [IFrom 0 (p ++ [b]) [(g, k)]] [IFrom 0 (p ++ [b]) [(g, k)]]
                [IFrom 0 (D ++ [b]) [(g, k)]] refs false [IFrom 0 (D ++ [b]) [(g, k)]]).
     - reflexivity.
@@ -687,11 +688,41 @@ Section ModuleMove.
   Lemma path_eqb_false a c : a <> c -> path_eqb a c = false.
   Proof. intro H. apply path_eqb_neq. exact H. Qed.
 
+    Lemma D_head : exists c D', D = c :: D' /\ is_dir l [c] = true.
+    Proof.
+      assert (G : forall D0, D0 <> [] -> is_dir l (firstn 1 D0) = true ->
+                             exists c D', D0 = c :: D' /\ is_dir l [c] = true).
+      { intros [|c D'] H1 H2; [congruence|]. exists c, D'. split; [reflexivity|exact H2]. }
+      apply G; [apply L_Dne|apply dir_prefix_D].
+    Qed.
+
+
+  (* what _change_import_statements finds for  from p import ..  and  from D import ..  (either variant) *)
+  Lemma imported_p F : p <> [] -> imported_resource V w F 0 p = Done (Some (RDir p)).
+  Proof.
+    intro Hp. unfold imported_resource. destruct (v_relctx V).
+    - cbn [from_module]. fold l. rewrite (p_ne_find_p F Hp). reflexivity.
+    - cbn [imported_resource_nofolder]. fold l. rewrite (find_module_p Hp). reflexivity.
+  Qed.
+
+  Lemma imported_D F : imported_resource V w F 0 D = Done (Some (RDir D)).
+  Proof.
+    unfold imported_resource. destruct (v_relctx V).
+    - cbn [from_module]. fold l. rewrite abs_rope_D. reflexivity.
+    - cbn [imported_resource_nofolder]. fold l. rewrite find_module_D. reflexivity.
+  Qed.
+
+  Lemma moved_from_import_eq al : moved_from_import w src D al = IFrom 0 D [(b, al)].
+  Proof.
+    unfold moved_from_import. cbn [src_name src]. fold l. rewrite L_mn.
+    destruct D_head as [c [D' [E _]]]. rewrite E. reflexivity.
+  Qed.
+
   (* ---- style: import p.b as x *)
   Lemma co_import_as F name x refs :
     fallback_ok l F D = true -> N.eqb x b = false ->
     (forall r, In r refs -> r = [x] \/ exists g, r = [x; g]) ->
-    change_occurrences w src D (client_of p b F name (StImportAs x) refs) =
+    change_occurrences V w src D (client_of p b F name (StImportAs x) refs) =
     Done {| m_folder := F; m_name := name; m_imports := [INormal [(D ++ [b], Some x)]]; m_refs := refs |}.
   Proof.
     intros Hfb Hxb Hrefs.
@@ -706,7 +737,7 @@ Section ModuleMove.
         cbn [lookup_env fold_left]. rewrite N.eqb_refl. cbn [step_attr]. unfold src. rewrite mod_attr_py.
         destruct (memN g (globals_of w (RPy p b))); reflexivity. }
       rewrite E, andb_false_r. reflexivity. }
-    rewrite (change_occurrences_steps w src D m
+    rewrite (change_occurrences_steps V w src D m
                [INormal [(p ++ [b], Some x)]] [INormal [(p ++ [b], Some x)]]
                [INormal [(D ++ [b], Some x)]] refs false [INormal [(D ++ [b], Some x)]]).
     - reflexivity.
@@ -735,7 +766,7 @@ Section ModuleMove.
   Lemma co_from_pkg F name xo refs :
     p <> [] ->
     (forall r, In r refs -> r = [or_name xo b] \/ exists g, r = [or_name xo b; g]) ->
-    change_occurrences w src D (client_of p b F name (StFromPkg xo) refs) =
+    change_occurrences V w src D (client_of p b F name (StFromPkg xo) refs) =
     Done {| m_folder := F; m_name := name; m_imports := [IFrom 0 D [(b, xo)]]; m_refs := refs |}.
   Proof.
     intros Hp Hrefs.
@@ -757,7 +788,7 @@ Section ModuleMove.
       { unfold rope_eval. cbn [m_folder m client_of]. rewrite Henv1. unfold eval_dotted.
         cbn [lookup_env fold_left]. rewrite N.eqb_refl. reflexivity. }
       rewrite E2, andb_false_r. reflexivity. }
-    rewrite (change_occurrences_steps w src D m
+    rewrite (change_occurrences_steps V w src D m
                [IEmpty; IFrom 0 D [(b, xo)]] [IFrom 0 D [(b, xo)]]
                [IFrom 0 D [(b, xo)]] refs false [IFrom 0 D [(b, xo)]]).
     - reflexivity.
@@ -768,21 +799,21 @@ Section ModuleMove.
       cbn [lookup_env fold_left]. rewrite N.eqb_refl. cbn [is_moving_obj]. rewrite res_eqb_refl. reflexivity.
     - rewrite destname_eq. apply L_Dne.
     - (* _change_import_statements: Case 2 *)
-      unfold change_import_statements. cbn [m m_imports client_of style_imports length Nat.mul Nat.add].
+      unfold change_import_statements. cbn [m m_folder m_imports client_of style_imports length Nat.mul Nat.add].
       cbn [change_loop length Nat.leb].
-      assert (S0 : change_stmt w src D [IFrom 0 p [(b, xo)]] 0 = Done [IEmpty; IFrom 0 D [(b, xo)]]).
+      assert (S0 : change_stmt V w src D F [IFrom 0 p [(b, xo)]] 0 = Done [IEmpty; IFrom 0 D [(b, xo)]]).
       { unfold change_stmt. cbn [nth_error existsb fst src_name src]. rewrite N.eqb_refl. cbn [orb negb].
-        cbn [imported_resource_nofolder]. fold l. rewrite (find_module_p Hp).
+        rewrite (imported_p F Hp).
         cbn [res_opt_is src_parent res_parent src]. rewrite res_eqb_refl.
-        cbn [fold_left fst snd filter]. rewrite !N.eqb_refl. rewrite L_mn. cbn [negb].
+        cbn [fold_left fst snd filter]. rewrite !N.eqb_refl. rewrite moved_from_import_eq. cbn [negb].
         cbn [add_import adding_visit].
         assert (Epd : dotted_eqb p D = false).
         { apply path_eqb_false. intro E. apply L_Dp. symmetry. exact E. }
         rewrite Epd. cbn [andb firstn skipn app]. reflexivity. }
       rewrite S0. cbn [length Nat.leb].
-      assert (S1 : change_stmt w src D [IEmpty; IFrom 0 D [(b, xo)]] 1 = Done [IEmpty; IFrom 0 D [(b, xo)]]).
+      assert (S1 : change_stmt V w src D F [IEmpty; IFrom 0 D [(b, xo)]] 1 = Done [IEmpty; IFrom 0 D [(b, xo)]]).
       { unfold change_stmt. cbn [nth_error existsb fst src_name src]. rewrite N.eqb_refl. cbn [orb negb].
-        cbn [imported_resource_nofolder]. fold l. rewrite find_module_D.
+        rewrite (imported_D F).
         cbn [res_opt_is src_parent res_parent src]. cbn [res_eqb].
         rewrite (path_eqb_false D p L_Dp). cbn [stmt_is_empty negb andb firstn skipn app]. reflexivity. }
       rewrite S1. reflexivity.
@@ -817,7 +848,7 @@ Section ModuleMove.
   Lemma co_star F name refs :
     fallback_ok l F D = true ->
     (forall r, In r refs -> exists g, r = [g]) ->
-    change_occurrences w src D (client_of p b F name StStar refs) =
+    change_occurrences V w src D (client_of p b F name StStar refs) =
     Done {| m_folder := F; m_name := name; m_imports := [IFrom 0 (D ++ [b]) [(STAR, None)]]; m_refs := refs |}.
   Proof.
     intros Hfb Hrefs.
@@ -832,7 +863,7 @@ Section ModuleMove.
         destruct (memN g (globals_of w src)); [reflexivity|].
         destruct (memN g (globals_of w (m_res m))); reflexivity. }
       rewrite E, andb_false_r. reflexivity. }
-    rewrite (change_occurrences_steps w src D m
+    rewrite (change_occurrences_steps V w src D m
                [IFrom 0 (p ++ [b]) [(STAR, None)]] [IFrom 0 (p ++ [b]) [(STAR, None)]]
                [IFrom 0 (D ++ [b]) [(STAR, None)]] refs false [IFrom 0 (D ++ [b]) [(STAR, None)]]).
     - reflexivity.
@@ -861,7 +892,7 @@ Section ModuleMove.
   Lemma co_rel_mod name g k refs :
     fallback_ok l p D = true -> N.eqb g b = false -> N.eqb g STAR = false ->
     (forall r, In r refs -> r = [or_name k g]) ->
-    change_occurrences w src D (client_of p b p name (StRelMod g k) refs) =
+    change_occurrences V w src D (client_of p b p name (StRelMod g k) refs) =
     Done {| m_folder := p; m_name := name; m_imports := [IFrom 0 (D ++ [b]) [(g, k)]]; m_refs := refs |}.
   Proof.
     intros Hfb Hgb Hgs Hrefs.
@@ -879,7 +910,7 @@ Section ModuleMove.
         cbn [app lookup_env fold_left]. rewrite N.eqb_refl.
         unfold src. rewrite mod_attr_py. destruct (memN g (globals_of w (RPy p b))); reflexivity. }
       rewrite E, andb_false_r. reflexivity. }
-    rewrite (change_occurrences_steps w src D m
+    rewrite (change_occurrences_steps V w src D m
                [IFrom 1 [b] [(g, k)]] [IFrom 1 [b] [(g, k)]]
                [IFrom 0 (D ++ [b]) [(g, k)]] refs false [IFrom 0 (D ++ [b]) [(g, k)]]).
     - reflexivity.
@@ -941,14 +972,6 @@ Section ModuleMove.
         cbn [is_moving_obj]. apply res_eqb_refl.
     Qed.
 
-    Lemma D_head : exists c D', D = c :: D' /\ is_dir l [c] = true.
-    Proof.
-      assert (G : forall D0, D0 <> [] -> is_dir l (firstn 1 D0) = true ->
-                             exists c D', D0 = c :: D' /\ is_dir l [c] = true).
-      { intros [|c D'] H1 H2; [congruence|]. exists c, D'. split; [reflexivity|exact H2]. }
-      apply G; [apply L_Dne|apply dir_prefix_D].
-    Qed.
-
     Lemma not_moving_new_env (Fm : path) :
       match lookup_env (src_name src) (env_of true w Fm [INormal [(D ++ [b], None)]]) with
       | Some o => is_moving_obj src o | None => false end = false.
@@ -984,7 +1007,7 @@ Section ModuleMove.
 
     Lemma co_import F name refs :
       (forall r, In r refs -> exists rest, r = (p ++ [b]) ++ rest) ->
-      change_occurrences w src D (mI F name refs) =
+      change_occurrences V w src D (mI F name refs) =
       Done {| m_folder := F; m_name := name; m_imports := [INormal [(D ++ [b], None)]];
               m_refs := map (fun r => (D ++ [b]) ++ skipn (S (length p)) r) refs |}.
     Proof.
@@ -995,7 +1018,7 @@ Section ModuleMove.
         unfold m, imps. rewrite occ_ref_import, replace_primary_hit. f_equal.
         replace (S (length p)) with (length (p ++ [b])) by (rewrite app_length; cbn; lia).
         rewrite skipn_app_len. reflexivity. }
-      rewrite (change_occurrences_steps w src D m imps imps
+      rewrite (change_occurrences_steps V w src D m imps imps
                  [INormal [(D ++ [b], None)]] (map (fun r => (D ++ [b]) ++ skipn (S (length p)) r) refs)
                  (match refs with [] => false | _ => true end) [INormal [(D ++ [b], None)]]).
       - unfold m, mI. cbn [m_folder m_name client_of]. f_equal. f_equal.
@@ -1023,15 +1046,16 @@ Section ModuleMove.
   Proof. reflexivity. Qed.
 
   Lemma co_rel_pkg name refs :
+    v_relctx V = false ->
     p <> [] ->
     (forall r, In r refs -> exists rest, r = [b] ++ rest) ->
-    change_occurrences w src D (client_of p b p name StRelPkg refs) =
+    change_occurrences V w src D (client_of p b p name (StRelPkg None) refs) =
     Done {| m_folder := p; m_name := name;
             m_imports := match refs with [] => [] | _ => [INormal [(D ++ [b], None)]] end;
             m_refs := map (fun r => (D ++ [b]) ++ skipn 1 r) refs |}.
   Proof.
-    intros Hp Hrefs.
-    set (m := client_of p b p name StRelPkg refs).
+    intros Hv Hp Hrefs.
+    set (m := client_of p b p name (StRelPkg None) refs).
     set (imps := [IFrom 1 [] [(b, @None N)]]).
     assert (Henv : env_of true w p imps = [(b, Some (OMod src))]).
     { unfold env_of, imps. cbn [flat_map bind_stmt bind_from app from_module]. fold l.
@@ -1042,7 +1066,7 @@ Section ModuleMove.
     assert (Hocc : forall rest, occ_ref w src m imps ([b] ++ rest) = Some 1).
     { intro rest. unfold occ_ref, occ_index. cbn [app occ_scan src_name src length].
       rewrite N.eqb_refl, Hevb. reflexivity. }
-    rewrite (change_occurrences_steps w src D m imps imps imps
+    rewrite (change_occurrences_steps V w src D m imps imps imps
                (map (fun r => (D ++ [b]) ++ skipn 1 r) refs)
                (match refs with [] => false | _ => true end) []).
     - cbn [m m_folder m_name client_of]. f_equal. f_equal.
@@ -1052,6 +1076,7 @@ Section ModuleMove.
       cbn [andb]. rewrite orb_true_r. reflexivity.
     - rewrite destname_eq. apply L_Dne.
     - apply cis_single. unfold change_stmt. cbn [nth_error existsb fst src_name src]. rewrite N.eqb_refl.
+      unfold imported_resource. rewrite Hv.
       cbn [orb negb imported_resource_nofolder res_opt_is stmt_is_empty andb firstn skipn app]. reflexivity.
     - reflexivity.
     - unfold imps at 2 3. cbn [map rename_stmt m_folder m client_of].
@@ -1065,6 +1090,78 @@ Section ModuleMove.
       cbn [lookup_env src_name src]. rewrite N.eqb_refl. cbn [is_moving_obj]. rewrite res_eqb_refl.
       unfold imps. cbn [map is_star]. rewrite L_bS. cbn [filter snd fst]. rewrite N.eqb_refl.
       cbn [andb negb reparse filter stmt_is_empty]. reflexivity.
+  Qed.
+
+  (* ---- the same style once the import context knows the folder: Case 2 applies *)
+  Lemma co_rel_pkg_fixed name xo refs :
+    v_relctx V = true ->
+    p <> [] ->
+    (forall r, In r refs -> r = [or_name xo b] \/ exists g, r = [or_name xo b; g]) ->
+    change_occurrences V w src D (client_of p b p name (StRelPkg xo) refs) =
+    Done {| m_folder := p; m_name := name; m_imports := [IFrom 0 D [(b, xo)]]; m_refs := refs |}.
+  Proof.
+    intros Hv Hp Hrefs.
+    set (y := or_name xo b) in *.
+    set (m := client_of p b p name (StRelPkg xo) refs).
+    assert (Henv0 : env_of true w p [IFrom 1 [] [(b, xo)]] = [(y, Some (OMod src))]).
+    { unfold env_of. cbn [flat_map bind_stmt bind_from app from_module]. fold l.
+      rewrite rel_find_pkg. rewrite L_bS. rewrite attr_p_b by auto. reflexivity. }
+    assert (Henv1 : env_of true w p [IFrom 0 D [(b, xo)]] = [(y, None)]).
+    { unfold env_of. cbn [flat_map bind_stmt bind_from app from_module]. fold l.
+      rewrite abs_rope_D. rewrite L_bS. rewrite attr_D_b_old. reflexivity. }
+    assert (Hev : forall r, In r refs -> occ_ref w src m [IFrom 0 D [(b, xo)]] r = None).
+    { intros r Hr. unfold occ_ref, occ_index.
+      assert (E1 : is_moving_obj src (rope_eval w m [IFrom 0 D [(b, xo)]] [y]) = false).
+      { unfold rope_eval. cbn [m_folder m client_of]. rewrite Henv1. unfold eval_dotted.
+        cbn [lookup_env fold_left]. rewrite N.eqb_refl. reflexivity. }
+      destruct (Hrefs r Hr) as [->|[g ->]]; cbn [occ_scan app]; rewrite E1, andb_false_r; [reflexivity|].
+      assert (E2 : is_moving_obj src (rope_eval w m [IFrom 0 D [(b, xo)]] [y; g]) = false).
+      { unfold rope_eval. cbn [m_folder m client_of]. rewrite Henv1. unfold eval_dotted.
+        cbn [lookup_env fold_left]. rewrite N.eqb_refl. reflexivity. }
+      rewrite E2, andb_false_r. reflexivity. }
+    rewrite (change_occurrences_steps V w src D m
+               [IEmpty; IFrom 0 D [(b, xo)]] [IFrom 0 D [(b, xo)]]
+               [IFrom 0 D [(b, xo)]] refs false [IFrom 0 D [(b, xo)]]).
+    - reflexivity.
+    - unfold occurs_in_module. cbn [m m_imports client_of style_imports existsb stmt_occurs m_folder andb].
+      unfold from_name_occurs. cbn [fst snd src_name src].
+      rewrite N.eqb_refl. unfold rope_eval. cbn [m_folder m client_of]. rewrite Henv0. unfold eval_dotted.
+      change (match xo with Some x => x | None => b end) with y.
+      cbn [lookup_env fold_left]. rewrite N.eqb_refl. cbn [is_moving_obj]. rewrite res_eqb_refl.
+      cbn [andb]. rewrite orb_true_r. reflexivity.
+    - rewrite destname_eq. apply L_Dne.
+    - unfold change_import_statements. cbn [m m_folder m_imports client_of style_imports length Nat.mul Nat.add].
+      cbn [change_loop length Nat.leb].
+      assert (S0 : change_stmt V w src D p [IFrom 1 [] [(b, xo)]] 0 = Done [IEmpty; IFrom 0 D [(b, xo)]]).
+      { unfold change_stmt. cbn [nth_error existsb fst src_name src]. rewrite N.eqb_refl. cbn [orb negb].
+        unfold imported_resource. rewrite Hv. cbn [from_module]. fold l. rewrite rel_find_pkg.
+        cbn [res_opt_is src_parent res_parent src]. rewrite res_eqb_refl.
+        cbn [fold_left fst snd filter]. rewrite !N.eqb_refl. rewrite moved_from_import_eq. cbn [negb].
+        cbn [add_import adding_visit].
+        assert (Epd : dotted_eqb [] D = false).
+        { apply path_eqb_false. intro E. apply L_Dne. symmetry. exact E. }
+        rewrite Epd. cbn [andb firstn skipn app]. reflexivity. }
+      rewrite S0. cbn [length Nat.leb].
+      assert (S1 : change_stmt V w src D p [IEmpty; IFrom 0 D [(b, xo)]] 1 = Done [IEmpty; IFrom 0 D [(b, xo)]]).
+      { unfold change_stmt. cbn [nth_error existsb fst src_name src]. rewrite N.eqb_refl. cbn [orb negb].
+        rewrite (imported_D p).
+        cbn [res_opt_is src_parent res_parent src]. cbn [res_eqb].
+        rewrite (path_eqb_false D p L_Dp). cbn [stmt_is_empty negb andb firstn skipn app]. reflexivity. }
+      rewrite S1. reflexivity.
+    - reflexivity.
+    - cbn [map rename_stmt m_folder m client_of]. rewrite occ_from_D. reflexivity.
+    - cbn [m_refs m client_of]. rewrite <- (map_id refs) at 2. apply map_ext_in. intros r Hr.
+      unfold rename_ref. rewrite (Hev r Hr). reflexivity.
+    - unfold occurs_in_module. cbn [andb orb m_refs m client_of].
+      apply not_true_is_false. intro H. apply existsb_exists in H as [r [Hr1 Hr2]].
+      rewrite (Hev r Hr1) in Hr2. discriminate.
+    - unfold remove_old_imports. cbn [map m_folder m client_of]. rewrite Henv1.
+      assert (Hst : is_star [(b, xo)] = false) by (cbn [is_star]; apply L_bS). rewrite Hst.
+      cbn [lookup_env src_name src].
+      assert (Hb : match (if N.eqb b y then Some (@None obj) else None) with
+                   | Some o => is_moving_obj src o | None => false end = false)
+        by (destruct (N.eqb b y); reflexivity).
+      rewrite Hb. cbn [filter snd]. rewrite andb_false_r. cbn [negb reparse filter stmt_is_empty]. reflexivity.
   Qed.
 
   (* ------------------------------------------------------------------ Python's view, before and after *)
@@ -1128,7 +1225,7 @@ Section ModuleMove.
   Lemma ltb_len_p : p <> [] -> Nat.ltb 0 (length p) = true.
   Proof. intro H. destruct p; [congruence|reflexivity]. Qed.
 
-  Lemma envB_rel_pkg : p <> [] -> env_of false w p [IFrom 1 [] [(b, None)]] = [(b, Some (OMod src))].
+  Lemma envB_rel_pkg xo : p <> [] -> env_of false w p [IFrom 1 [] [(b, xo)]] = [(or_name xo b, Some (OMod src))].
   Proof.
     intro Hp. unfold env_of. cbn [flat_map bind_stmt bind_from app from_module]. fold l.
     rewrite (ltb_len_p Hp), rel_find_pkg, L_bS, attr_p_b by auto. reflexivity.
@@ -1252,15 +1349,15 @@ Section ModuleMove.
   Proof. intros Hm H. apply (refs_preserved_map m m' (fun r => r)); [rewrite map_id; exact Hm|exact H]. Qed.
 
   Theorem move_module_client F name st refs :
-    style_side w p b D F st = true ->
+    style_side V w p b D F st = true ->
     forallb (ref_ok w p b st) refs = true ->
-    exists m', change_occurrences w src D (client_of p b F name st refs) = Done m'
+    exists m', change_occurrences V w src D (client_of p b F name st refs) = Done m'
                /\ m_folder m' = F /\ m_name m' = name
                /\ refs_preserved (client_of p b F name st refs) m'.
   Proof.
     intros Hside Hrefs. rewrite forallb_forall in Hrefs.
     unfold style_side in Hside. apply andb_true_iff in Hside as [Hfb Hst]. fold l in Hfb.
-    destruct st as [|x|xo|g k| | |g k].
+    destruct st as [|x|xo|g k| |xr|g k].
     - (* import p.b *)
       eexists. split; [apply co_import|].
       + intros r Hr. destruct (ref_ok_base StImport _ r eq_refl (Hrefs r Hr)) as [->|[g [_ ->]]].
@@ -1321,31 +1418,46 @@ Section ModuleMove.
         eapply star_preserved; eauto.
         * apply envB_star.
         * apply envA_star.
-    - (* from . import b *)
-      apply andb_true_iff in Hst as [HF Hp0]. apply path_eqb_eq in HF. subst F.
+    - (* from . import b [as x] *)
+      apply andb_true_iff in Hst as [Hst Hx]. apply andb_true_iff in Hst as [HF Hp0].
+      apply path_eqb_eq in HF. subst F.
       assert (Hp : p <> []) by (destruct p; [discriminate|discriminate]).
-      assert (Hshape : forall r, In r refs -> r = [b] \/ exists g, In g (globals_of w src) /\ r = [b] ++ [g]).
-      { intros r Hr. apply (ref_ok_base StRelPkg [b] r eq_refl (Hrefs r Hr)). }
-      eexists. split; [apply co_rel_pkg; auto|].
-      + intros r Hr. destruct (Hshape r Hr) as [->|[g [_ ->]]]; [exists []; reflexivity|exists [g]; reflexivity].
-      + split; [reflexivity|]. split; [reflexivity|].
-        apply refs_preserved_map with (f := fun r => (D ++ [b]) ++ skipn 1 r); [reflexivity|].
-        intros r o Hr Ho. cbn [client_of m_refs] in Hr.
-        assert (Hne : match refs with [] => [] | _ :: _ => [INormal [(D ++ [b], @None N)]] end = [INormal [(D ++ [b], None)]]).
-        { destruct refs; [destruct Hr|reflexivity]. }
-        match goal with |- resolve_ref w' ?mm _ = _ => destruct (after_dotted mm Hne) as [A1 A2] end.
-        set (m := client_of p b p name StRelPkg refs) in *.
-        pose proof (envB_rel_pkg Hp) as HB.
-        destruct (Hshape r Hr) as [->|[g [Hg ->]]].
-        * replace ((D ++ [b]) ++ skipn 1 [b]) with (D ++ [b]) by (cbn [skipn]; rewrite app_nil_r; reflexivity).
-          rewrite (resolve_single w m b _ HB) in Ho. inversion Ho; subst o.
-          rewrite A1. cbn [move_obj]. rewrite rho_src. reflexivity.
-        * replace ((D ++ [b]) ++ skipn 1 ([b] ++ [g])) with ((D ++ [b]) ++ [g]) by reflexivity.
-          change ([b] ++ [g]) with [b; g] in Ho.
-          rewrite (resolve_single_attr w m b src g HB) in Ho.
-          unfold src in Ho. rewrite mod_attr_py in Ho. fold src in Ho. rewrite A2.
-          destruct (memN g (globals_of w src)); [|discriminate]. inversion Ho; subst o.
-          cbn [move_obj]. rewrite rho_src. reflexivity.
+      destruct (v_relctx V) eqn:Hv.
+      + (* the import context knows the folder: rewritten like  from p import b [as x]  *)
+        eexists. split; [apply co_rel_pkg_fixed; auto|].
+        * intros r Hr. destruct (ref_ok_base (StRelPkg xr) _ r eq_refl (Hrefs r Hr)) as [->|[g [_ ->]]];
+            [left; reflexivity|right; eexists; reflexivity].
+        * split; [reflexivity|]. split; [reflexivity|].
+          apply refs_preserved_same; [reflexivity|]. intros r o Hr Ho. cbn [client_of m_refs] in Hr.
+          eapply (single_mod_preserved _ _ (or_name xr b)); eauto.
+          -- apply envB_rel_pkg. exact Hp.
+          -- apply envA_from_pkg.
+          -- destruct (ref_ok_base (StRelPkg xr) _ r eq_refl (Hrefs r Hr)) as [->|[g' [_ ->]]];
+               [left; reflexivity|right; eexists; reflexivity].
+      + (* as found: only the unaliased form, through remove_old_imports + import D.b *)
+        destruct xr as [xa|]; [discriminate|].
+        assert (Hshape : forall r, In r refs -> r = [b] \/ exists g, In g (globals_of w src) /\ r = [b] ++ [g]).
+        { intros r Hr. apply (ref_ok_base (StRelPkg None) [b] r eq_refl (Hrefs r Hr)). }
+        eexists. split; [apply co_rel_pkg; auto|].
+        * intros r Hr. destruct (Hshape r Hr) as [->|[g [_ ->]]]; [exists []; reflexivity|exists [g]; reflexivity].
+        * split; [reflexivity|]. split; [reflexivity|].
+          apply refs_preserved_map with (f := fun r => (D ++ [b]) ++ skipn 1 r); [reflexivity|].
+          intros r o Hr Ho. cbn [client_of m_refs] in Hr.
+          assert (Hne : match refs with [] => [] | _ :: _ => [INormal [(D ++ [b], @None N)]] end = [INormal [(D ++ [b], None)]]).
+          { destruct refs; [destruct Hr|reflexivity]. }
+          match goal with |- resolve_ref w' ?mm _ = _ => destruct (after_dotted mm Hne) as [A1 A2] end.
+          set (m := client_of p b p name (StRelPkg None) refs) in *.
+          pose proof (envB_rel_pkg None Hp) as HB. cbn [or_name] in HB.
+          destruct (Hshape r Hr) as [->|[g [Hg ->]]].
+          -- replace ((D ++ [b]) ++ skipn 1 [b]) with (D ++ [b]) by (cbn [skipn]; rewrite app_nil_r; reflexivity).
+             rewrite (resolve_single w m b _ HB) in Ho. inversion Ho; subst o.
+             rewrite A1. cbn [move_obj]. rewrite rho_src. reflexivity.
+          -- replace ((D ++ [b]) ++ skipn 1 ([b] ++ [g])) with ((D ++ [b]) ++ [g]) by reflexivity.
+             change ([b] ++ [g]) with [b; g] in Ho.
+             rewrite (resolve_single_attr w m b src g HB) in Ho.
+             unfold src in Ho. rewrite mod_attr_py in Ho. fold src in Ho. rewrite A2.
+             destruct (memN g (globals_of w src)); [|discriminate]. inversion Ho; subst o.
+             cbn [move_obj]. rewrite rho_src. reflexivity.
     - (* from .b import g [as k] *)
       apply andb_true_iff in Hst as [Hst Hgs]. apply andb_true_iff in Hst as [Hst Hgb].
       apply andb_true_iff in Hst as [HF Hp0]. apply path_eqb_eq in HF. subst F.
@@ -1396,9 +1508,9 @@ Proof.
   - reflexivity.
 Qed.
 
-Theorem move_module_domain w p b D m :
-  move_domain w (RPy p b) D m = true ->
-  exists m', move_module_text w (RPy p b) D m = Done m'
+Theorem move_module_domain V w p b D m :
+  move_domain V w (RPy p b) D m = true ->
+  exists m', move_module_text V w (RPy p b) D m = Done m'
              /\ m_folder m' = m_folder m /\ m_name m' = m_name m
              /\ refs_preserved w p b D m m'.
 Proof.
@@ -1411,7 +1523,7 @@ Proof.
   assert (Em : m = client_of p b (m_folder m) (m_name m) st (m_refs m)).
   { destruct m as [f n i r]. cbn in *. subst i. reflexivity. }
   unfold move_module_text. rewrite Hne.
-  destruct (move_module_client w p b D Hlegal (m_folder m) (m_name m) st (m_refs m) Hside Hrefs)
+  destruct (move_module_client V w p b D Hlegal (m_folder m) (m_name m) st (m_refs m) Hside Hrefs)
     as [m' [H1 [H2 [H3 H4]]]].
   exists m'. rewrite Em at 1. split; [exact H1|]. split; [exact H2|]. split; [exact H3|].
   rewrite Em. exact H4.
